@@ -460,23 +460,16 @@ pub fn run_c08(tier: Tier) -> i32 {
                 let top = mk_level(THROWABLES[ti], &fseqs[fi]);
                 let degenerate_top = top.exception.is_none() && top.frames.is_empty();
                 // chains: depth 0..=max_depth; the first cause level ranges over all cause levels, deeper ones over the small family
-                fn rec(
-                    chain: &mut Vec<OTrace>,
-                    left: usize,
-                    first_pool: &[(usize, usize)],
-                    deep_pool: &[(usize, usize)],
-                    fseqs: &[Vec<usize>],
-                    visit: &mut dyn FnMut(&[OTrace]),
-                    budget: &Budget,
-                ) {
+                // chains: the pool of cause levels may differ per depth (pools[d] = levels allowed at cause depth d+1)
+                fn rec(chain: &mut Vec<OTrace>, pools: &[&[(usize, usize)]], fseqs: &[Vec<usize>], visit: &mut dyn FnMut(&[OTrace]), budget: &Budget) {
                     visit(chain);
-                    if left == 0 || budget.exceeded() {
+                    let d = chain.len() - 1;
+                    if d >= pools.len() || budget.exceeded() {
                         return;
                     }
-                    let pool = if chain.len() == 1 { first_pool } else { deep_pool };
-                    for &(ti, fi) in pool {
+                    for &(ti, fi) in pools[d] {
                         chain.push(mk_level(THROWABLES[ti], &fseqs[fi]));
-                        rec(chain, left - 1, first_pool, deep_pool, fseqs, visit, budget);
+                        rec(chain, pools, fseqs, visit, budget);
                         chain.pop();
                     }
                 }
@@ -499,7 +492,14 @@ pub fn run_c08(tier: Tier) -> i32 {
                         acc.sample(2, || otrace_json(&t));
                     }
                 };
-                rec(&mut chain, max_depth, if t { &cause_levels } else { &small_levels }, if t { &cause_levels[..cause_levels.len().min(40)] } else { &small_levels }, &fseqs, &mut visit, budget);
+                let forty = &cause_levels[..cause_levels.len().min(40)];
+                if t {
+                    // thorough: depth <= 3 with wide pools, then depth 4 with the narrow pool
+                    rec(&mut chain, &[&cause_levels, forty, &small_levels], &fseqs, &mut visit, budget);
+                    rec(&mut chain, &[&small_levels, &small_levels, &small_levels[..small_levels.len().min(8)], &small_levels[..small_levels.len().min(8)]], &fseqs, &mut visit, budget);
+                } else {
+                    rec(&mut chain, &[&small_levels, &small_levels, &small_levels], &fseqs, &mut visit, budget);
+                }
             })
         });
     });
@@ -507,7 +507,7 @@ pub fn run_c08(tier: Tier) -> i32 {
         prop: "C08",
         tier,
         level: "model_checking",
-        rule: format!("every typed trace with a top level from {} levels (exception absent / known / unknown x message / none; 0..2 frames over 5 frame kinds: resolving to 2 frames, unknown method, unknown class, entry without lines, known method with a line outside every range) and cause chains of depth 0..={} (first cause level: {}; deeper levels: {} ) x 2 mappings x {{mapper, cache}}; oracle R13 (same depth, every throwable remapped-or-identical, every frame expanded-or-identical, order kept) and, for every trace, printed typed result == text API on the printed input. distinct = distinct expected traces; non-trivial = expected != input", nlevels, max_depth, if t { "all levels with an exception" } else { "levels with an exception and <= 1 frame" }, if t { "the first 40 levels with an exception" } else { "levels with an exception and <= 1 frame" }),
+        rule: format!("every typed trace with a top level from {} levels (exception absent / known / unknown x message / none; 0..2 frames over 5 frame kinds: resolving to 2 frames, unknown method, unknown class, entry without lines, known method with a line outside every range) and cause chains of depth 0..={} (first cause level: {}; deeper levels: {} ) x 2 mappings x {{mapper, cache}}; oracle R13 (same depth, every throwable remapped-or-identical, every frame expanded-or-identical, order kept) and, for every trace, printed typed result == text API on the printed input. distinct = distinct expected traces; non-trivial = expected != input", nlevels, max_depth, if t { "all levels with an exception" } else { "levels with an exception and <= 1 frame" }, if t { "depth 2: the first 40 levels with an exception, depth 3: levels with <= 1 frame; plus depth-4 chains over the levels with <= 1 frame (8 of them at depths 3 and 4)" } else { "levels with an exception and <= 1 frame" }),
         bounds: json!({"top_levels": nlevels, "max_cause_depth": max_depth, "throwables": THROWABLES.iter().map(|t| format!("{:?}", t)).collect::<Vec<_>>(), "frames": FRAMES.iter().map(|f| format!("{:?}", f)).collect::<Vec<_>>()}),
         assumptions: vec!["canonical printed form: frames carry a file, cause levels carry an exception, the top level has an exception or a frame".into()],
         trusted_base: vec!["rustc/std".into(), "reference model pgmc/src/model.rs + model_typed in pgmc/src/props/e3.rs".into()],
